@@ -1,6 +1,9 @@
 //! Checks whose code under test is `sciparse` only (no FFI ⇒ also runnable under Miri/ASan).
 use vmon::{Args, Mon};
 
+mod c02;
+mod c03;
+mod c11;
 mod c12;
 mod c15;
 
@@ -8,6 +11,9 @@ fn main() {
     let args = Args::parse();
     let mut mon = Mon::new();
     let (rule, assumptions): (String, Vec<&'static str>) = match args.prop.as_str() {
+        "C02" => c02::run(&args, &mut mon),
+        "C03" => c03::run(&args, &mut mon),
+        "C11" => c11::run(&args, &mut mon),
         "C12" => c12::run(&args, &mut mon),
         "C15" => c15::run(&args, &mut mon),
         other => panic!("chk-codec does not implement {other}"),
